@@ -28,6 +28,7 @@ func (m *MTProto) sendPacket(request tl.Object, expectedTypes ...reflect.Type) (
 		data  messages.Common
 		msgID = utils.GenerateMessageId()
 	)
+	verifYield("idgen", msgID)
 
 	// adding types for parser if required
 	if len(expectedTypes) > 0 {
@@ -56,6 +57,7 @@ func (m *MTProto) sendPacket(request tl.Object, expectedTypes ...reflect.Type) (
 	}
 
 	// must write synchroniously, cuz seqno must be upper each request
+	verifYield("prelock", msgID)
 	m.seqNoMutex.Lock()
 	defer m.seqNoMutex.Unlock()
 
@@ -72,6 +74,7 @@ func (m *MTProto) sendPacket(request tl.Object, expectedTypes ...reflect.Type) (
 		m.seqNo += 2
 	}
 
+	verifYield("written", msgID)
 	return resp, nil
 }
 
@@ -81,6 +84,7 @@ func (m *MTProto) writeRPCResponse(msgID int, data tl.Object) error {
 		return errs.NotFound("msgID", strconv.Itoa(msgID))
 	}
 
+	verifYield("deliver", int64(msgID))
 	v <- data
 
 	m.responseChannels.Delete(msgID)
